@@ -32,6 +32,7 @@ Blame ==
   @@ "ha.libpanic.ctx_weak_address" :> {"C15"} @@ "ha.libpanic.ctx_weak_sender" :> {"C15"} @@ "ha.libpanic.ctx_weak_caller" :> {"C15"}
   @@ "ha.libpanic.yield" :> {"C11"} @@ "ha.libpanic.sleep" :> {"C11"}
   @@ "adv.vt.streamtmo" :> {"C13", "C11"} @@ "adv.pending.streamtmo" :> {"C13", "C11"}
+  @@ "adv.vt.flushing" :> {"C12", "C10", "C11"} @@ "adv.pending.flushing" :> {"C12", "C10", "C11"}
   @@ "blk.timer.alive" :> {"C10", "C15"} @@ "exit.timer.alive.aftertimeout" :> {"C10", "C15", "C11"}
   @@ "hb.phase.timer.closed" :> {"C10", "C05", "C03"}
   @@ "ha.dead"    :> {"C11"}
@@ -45,7 +46,7 @@ Blame ==
   @@ "cb.pb.failed.owning" :> {"C02", "C03", "C04", "C06", "C17"} @@ "cb.pb.failed.restarted.owning" :> {"C02", "C03", "C04", "C06", "C07", "C17"}
   @@ "hb.phase.failed.startErr.restarted" :> {"C06", "C03", "C07"}
   @@ "oe.res.failed.startErr.restarted" :> {"C06", "C02", "C03", "C07"} @@ "oe.res.failed.startErr.await.restarted" :> {"C06", "C02", "C03", "C04", "C07"}
-  @@ "exit.loop.aftertimeout" :> {"C11", "C03"} @@ "exit.loop.held" :> {"C03", "C05", "C15"} @@ "exit.loop.restart" :> {"C07", "C03"}
+  @@ "exit.loop.aftertimeout" :> {"C11", "C03"} @@ "exit.loop.held" :> {"C03", "C05", "C15"} @@ "exit.loop.restart" :> {"C07", "C03"} @@ "exit.loop.broker" :> {"C09"}
   @@ "oe.res.stopped.failed" :> {"C14", "C06"} @@ "oe.res.running.failed" :> {"C14", "C06"}
   @@ "oe.res.try_from_registry.failed" :> {"C08", "C14", "C06"} @@ "oe.res.already_running.failed" :> {"C08", "C14", "C06"}
   @@ "oe.done.failed" :> {"C08", "C14", "C06"}
